@@ -272,7 +272,70 @@ func H_C10_pano(v *V) {
 	v.Assert(d.F == wantF, "a flag before the first plain word / terminator is recognised, later ones are passed through")
 }
 
+type c10Deploy struct {
+	G   bool `short:"g"`
+	Pos struct {
+		Target string
+		Count  int
+	} `positional-args:"yes"`
+}
+type c10Two struct {
+	F   bool `short:"f"`
+	Pos struct {
+		Profile string
+	} `positional-args:"yes"`
+	Deploy c10Deploy `command:"deploy"`
+}
+
+// H_C10_twolevel: the parser declares positional fields and so does a
+// subcommand; words before the command word fill the parser's fields, words
+// after it the command's own fields, each list from its first field on.
+func H_C10_twolevel(v *V) {
+	W0, W1, W3 := v.String(1), v.String(1), v.String(1)
+	v.Assume(W0 != "-" && W1 != "-" && W3 != "-")
+	N := v.String(1)
+	v.Assume(N[0] >= '0' && N[0] <= '9')
+	argv := []string{"p" + W0}
+	if v.Choice(2) == 1 {
+		argv = append(argv, "-f")
+	}
+	argv = append(argv, "deploy")
+	nAfter := v.Choice(4)
+	after := []string{"t" + W1, N, "e" + W3}[:nAfter]
+	for i, w := range after {
+		if i == 1 && v.Choice(2) == 1 {
+			argv = append(argv, "-g")
+		}
+		argv = append(argv, w)
+	}
+	d := &c10Two{}
+	p := NewNamedParser("prog", PassDoubleDash)
+	p.AddGroup("Application Options", "", d)
+	rest, err := p.ParseArgs(argv)
+	vObsErr(v, err)
+	v.Assert(err == nil, "words for the parser's and the command's positional fields parse")
+	if err != nil {
+		return
+	}
+	v.Reach("success")
+	v.Assert(v.EqStr(d.Pos.Profile, "p"+W0), "the word before the command word fills the parser's field")
+	wantT, wantC := "", 0
+	var wantRest []string
+	if nAfter >= 1 {
+		wantT = "t" + W1
+	}
+	if nAfter >= 2 {
+		wantC = int(N[0] - '0')
+	}
+	if nAfter >= 3 {
+		wantRest = []string{"e" + W3}
+	}
+	v.Assert(v.EqStr(d.Deploy.Pos.Target, wantT) && d.Deploy.Pos.Count == wantC, "words after the command word fill the command's own fields from the first one on")
+	v.Assert(v.EqStrs(rest, wantRest), "tokens beyond the declared fields become remaining arguments")
+}
+
 func init() {
+	vHarnesses["H_C10_twolevel"] = H_C10_twolevel
 	vHarnesses["H_C10_pano"] = H_C10_pano
 	vHarnesses["H_C10_bind"] = H_C10_bind
 }
